@@ -106,6 +106,26 @@ def observe(op, grade=False):
     return dict(patches=patches, faces=faces, edges=edges, vproj=vproj)
 
 
+def chained_counts(op, side):
+    """what a mesh of `op` and a second operation built on op.get_face(side) lists: number of patch quads, projected faces,
+    projected edges (by label set) and projected vertices.  The second operation was never addressed by anybody."""
+    cb = _cb()
+    import numpy as np
+    face = op.get_face(side)
+    n = np.asarray(face.normal, dtype=float)
+    far = face.copy().translate(list(1.5 * n))
+    op2 = cb.Loft(face, far)
+    mesh = cb.Mesh()
+    mesh.add(op)
+    mesh.add(op2)
+    with warnings.catch_warnings():
+        warnings.simplefilter("ignore")
+        mesh.assemble()
+    return dict(quads=sum(len(p.sides) for p in mesh.patch_list.patches.values()), faces=len(mesh.face_list.faces),
+                pedges=len([e for e in mesh.edge_list.edges if e.kind == "project"]),
+                pverts=len([v for v in mesh.vertex_list.vertices if len(v.projected_to) > 0]))
+
+
 def exc_enum(e):
     return type(e).__name__
 
@@ -313,6 +333,14 @@ def run_sequence_impl(calls):
             elif c[0] == "project_corner":
                 op.project_corner(c[1], lab(c[2]))
         ob = observe(op)
+        if not on_copy and len(calls) % 2 == 0:
+            # an operation built on a face handed out by get_face adds nothing to patches and projections
+            want = dict(quads=sum(len(q) for q in ob["patches"].values()), faces=len(ob["faces"]),
+                        pedges=len([1 for (_a, _b, k, _l) in ob["edges"] if k == "project"]), pverts=len(ob["vproj"]))
+            for side in ("top", "bottom", "right"):
+                got = chained_counts(op, side)
+                if got != want:
+                    return ("error", "LeakThroughGetFace")
         if on_copy:
             bare = observe(orig)
             if bare["patches"] or bare["faces"] or bare["vproj"] or any(l for (_a, _b, _k, l) in bare["edges"]):
